@@ -22,8 +22,7 @@ def cases(draw, tier):
     nl = draw(S.netlists(max_g=40 if big else 14, max_pi=6 if big else 5, max_st=4 if big else 3, need_d=False))
     sims = draw(S.SIMS)
     cycles = draw(st.sampled_from([0, 0, 1, 2, 3, 4]))
-    if cycles and any(s['d'] is None for s in nl['st']):
-        cycles = 0      # next state undefined for a state element without data pin
+    # a state element without data pin: its unconnected pin reads constant 0 like every unconnected input pin, so its next state is 0
     pi = draw(S.bitvecs(nl['pi'], sims))
     stt = draw(S.bitvecs(len(nl['st']), sims))
     fill = draw(st.integers(0, 7))
@@ -70,7 +69,7 @@ def prop(case):
         sim.cycle(cycles)
         for _ in range(cycles):
             sig = rm.eval2(nl, case['pi'], state, mask)
-            state = [sig[s['d']] for s in nl['st']]
+            state = [sig[s['d']] if s['d'] is not None else 0 for k, s in enumerate(nl['st'])]
     res = unpack_bp(sim.s[1], sims)
 
     def expect(row, val, what):
